@@ -17,6 +17,7 @@ class Facts:
         for f in self.doc["fns"]:
             fn = Fn(f, self)
             self.fns[fn.path] = fn
+        self.consts = {c["path"]: c for c in self.doc.get("consts", [])}
         self.adts = {a["path"]: a for a in self.doc["adts"]}
         self.impls = self.doc["impls"]
         self.statics = self.doc["statics"]
